@@ -98,17 +98,31 @@ func checkC07(c *Ctx, r *Report) {
 		func(fi *FuncInfo) func(ast.Node) bool { return w.appendTo(fi, w.resultSlice(fi)) }, "append(out)",
 		func(fi *FuncInfo) []skipSpec {
 			return []skipSpec{
-				{Cond: func(e ast.Expr) bool { return exprString(e) == "!ok" || exprString(e) == "ok" }, Pol: true, Desc: "object is not a constant"},
+				{Cond: w.commaOkOf(fi, "assert", "*go/types.Const"), Pol: false, Desc: "object is not a constant"},
 				{Cond: func(e ast.Expr) bool {
 					return containsNode(e, w.callPred(fi, "go/types.Identical"))
-				}, Pol: true, Desc: "constant is of another type (condition is !Identical)"},
+				}, Pol: false, Desc: "constant is of another type (not Identical)"},
 				{Cond: func(e ast.Expr) bool {
-					be, ok := e.(*ast.BinaryExpr)
-					return ok && be.Op == token.NEQ && strings.Contains(exprString(be.Y), "Obj().Name()")
-				}, Pol: true, Desc: "alias of another name"},
+					// the enum's name compared with the aliased object's name
+					x, y, ok := eqOperands(e)
+					if !ok {
+						return false
+					}
+					a := w.exprAtoms(fi, x)
+					b := w.exprAtoms(fi, y)
+					isAliasName := func(t *Atoms) bool { return t.Calls["(*go/types.Alias).Obj"] }
+					isEnumName := func(t *Atoms) bool { return t.Calls["(*go/types.object).Name"] && !t.Calls["(*go/types.Alias).Obj"] }
+					return (isAliasName(a) && isEnumName(b)) || (isAliasName(b) && isEnumName(a))
+				}, Pol: false, Desc: "alias of another name"},
 				{Cond: func(e ast.Expr) bool {
-					be, ok := e.(*ast.BinaryExpr)
-					return ok && be.Op == token.EQL && exprString(be.X) == "val" && exprString(be.Y) == "nil"
+					x, y, ok := eqOperands(e)
+					if !ok {
+						return false
+					}
+					if isNilIdent(fi.Pkg.TypesInfo, x) {
+						x, y = y, x
+					}
+					return isNilIdent(fi.Pkg.TypesInfo, y) && w.exprAtoms(fi, x).Calls["gast.ExtractConstValue"]
 				}, Pol: true, Desc: "value cannot be represented"},
 			}
 		}, true,
